@@ -1,4 +1,5 @@
 #![allow(dead_code, unused_imports)]
+mod c06;
 mod c09;
 mod clock;
 mod disk;
@@ -52,6 +53,17 @@ fn plan(prop: &str, tier: &str, seed: u64) -> Plan {
         };
     }
     match prop {
+        "C06" => {
+            let (batches, exhaustive) = c06::batches(tier, seed);
+            Plan {
+                batches,
+                level: "exploration",
+                rule: "one evaluation = one format request (full format checked by the independent decoder and by mounting, or a boot-sector probe through a device that fails beyond byte 511); distinct = distinct resulting layouts (FAT width, sector size, cluster size, FAT size, root entries, cluster count) / rejected request shapes / layout change points".into(),
+                exhaustive,
+                assumptions: vec!["refdec geometry rules are taken from the Microsoft FAT specification".into(), "exhaustive=true refers to the sub-space 'default options x every total sector count 1..2^32-1' (boot-sector level); the option space is sampled".into()],
+                extra: serde_json::json!({}),
+            }
+        }
         "C09" => Plan {
             batches: c09::batches(tier, seed),
             level: "fault_enumeration",
@@ -110,6 +122,26 @@ fn main() {
             });
             for (i, s) in rep.steps.iter().enumerate() {
                 println!("  {:3} c{} {:?}{}", i, s.c, s.op, s.hard_at.map_or(String::new(), |k| format!(" !hard@{}", k)));
+            }
+            if rep.kind != "engine" {
+                let out = c06::replay(&rep.kind, rep.seed);
+                match out {
+                    Some(o) => match o.violation {
+                        Some((v, _)) => {
+                            println!("VIOLATION property={} replay={}", v.property, path);
+                            println!("  class={} detail={}", v.class, v.detail);
+                            std::process::exit(1);
+                        }
+                        None => {
+                            println!("replay of {} held", path);
+                            std::process::exit(0);
+                        }
+                    },
+                    None => {
+                        eprintln!("unknown replay kind {}", rep.kind);
+                        std::process::exit(2);
+                    }
+                }
             }
             match runner::replay_engine(&rep) {
                 Some(v) => {
